@@ -521,7 +521,8 @@ Definition handle_app_ents_resp (s : node) (from : nid) (success : bool) (index 
       else
         let p1 := mk_peer (pr_id p) (pr_next p) (pr_match p) false (pr_contact p) (n_elapsed s) in
         if negb success then
-          let p2 := mk_peer (pr_id p1) (if negb (hint =? 0) then hint else index) (pr_match p1) false (pr_contact p1) (pr_recv p1) in
+          let nx := if negb (hint =? 0) then hint else index in
+          let p2 := mk_peer (pr_id p1) (if nx <=? pr_match p1 then pr_match p1 + 1 else nx) (pr_match p1) false (pr_contact p1) (pr_recv p1) in
           let s1 := set_leader s (l_check s) (peer_set p2 (l_peers s)) in
           send_app_ents s1 p2
         else
@@ -868,7 +869,21 @@ Definition blank_node (id : nid) (cfg : config) (p : pstate) : node :=
      n_conf := None; f_contact := 0; f_timeout := 0; c_timeout := 0; c_votes := [];
      l_check := 0; l_peers := []; n_msgs := []; n_commits := [] |}.
 
-Definition new_core (id : nid) (cfg : config) (p : pstate) : R node :=
+(* core.go reconcileLogWithSnapshot (fix F10): finish an interrupted handleSnapshot before anything reads the log *)
+Definition reconcile (s : node) : R node :=
+  match p_snap (n_p s), log_first (p_log (n_p s)), log_last (p_log (n_p s)) with
+  | Some m, Some fi, Some li =>
+      if (li <? sn_index m) || (sn_index m + 1 <? fi) then do_mut (MTruncate 0) s
+      else if fi <=? sn_index m then
+        t <- log_term (n_p s) (sn_index m) ;;
+        if negb (t =? sn_term m) then do_mut (MTruncate 0) s else Ret s
+      else Ret s
+  | _, _, _ => Ret s
+  end.
+
+Definition new_core (id : nid) (cfg : config) (p0 : pstate) : R node :=
+  r <- reconcile (blank_node id cfg p0) ;;
+  let p := n_p r in
   let s0 := set_conf (blank_node id cfg p) (init_latest_conf p) in
   s1 <- (match p_snap p with
          | None => Ret s0
